@@ -396,8 +396,10 @@ fn c15_relpath(cases: u32, seed: u64, scratch: &Path) {
         proptest::collection::vec(comp(), 0..6),
         last,
         proptest::collection::vec(comp(), 0..5),
+        any::<bool>(),
     );
-    let res = r.run(&strat, |(tdirs, tlast, bdirs)| {
+    std::env::set_current_dir(&scratch).expect("chdir to scratch");
+    let res = r.run(&strat, |(tdirs, tlast, bdirs, use_rel)| {
         // keep both inside the scratch tree: drop a ".." that would climb above it (lexically)
         let clamp = |v: &Vec<&str>| -> Vec<String> {
             let mut depth = 0i32;
@@ -440,7 +442,22 @@ fn c15_relpath(cases: u32, seed: u64, scratch: &Path) {
         // base, i.e. its final component is never a symlink; symlinks in the middle of the base are allowed
         let last_real = bd.iter().rev().find(|c| !c.is_empty() && *c != ".").map(|s| s.as_str());
         let base = if last_real == Some("l") { std::fs::canonicalize(&base).unwrap() } else { base };
-        let rel = redo::relpath(&t, &base).map_err(|e| TestCaseError::fail(format!("relpath error {}", e)))?;
+        // half of the cases name the target RELATIVE to the process' working directory (= the scratch root), as a
+        // command-line argument would: relative inputs take their own branch inside relpath
+        let t_given: PathBuf = if use_rel {
+            let mut p = PathBuf::new();
+            for c in &td {
+                p.push(c);
+            }
+            p.push(tlast);
+            p
+        } else {
+            t.clone()
+        };
+        if use_rel {
+            stt.class("target-given-relative-to-cwd");
+        }
+        let rel = redo::relpath(&t_given, &base).map_err(|e| TestCaseError::fail(format!("relpath error {}", e)))?;
         let has_link = td.iter().chain(bd.iter()).any(|c| c == "l");
         stt.class(if has_link { "symlinked-dir-on-path" } else { "no-symlink" });
         if tlast == "fl" {
